@@ -316,7 +316,7 @@ func runFED07(r *core.Run) {
 			if len(cands) > 0 {
 				why = "its representations are not a subset of the fault-free request's"
 			}
-			r.Fail(prop, "fabricated-request", "", "after a failure the gateway sent a request it would not have sent without it (%s)\nrequest: s%d %s vars=%s\n%s\n%s", why, q.sub, q.query, q.vars, ctxMsg, e.describe())
+			r.Fail(prop, "fabricated-request", sharedKeyShape(op.Query), "after a failure the gateway sent a request it would not have sent without it (%s)\nrequest: s%d %s vars=%s\n%s\n%s", why, q.sub, q.query, q.vars, ctxMsg, e.describe())
 			continue
 		}
 		matchOf[q] = m
@@ -433,7 +433,7 @@ func runFED07(r *core.Run) {
 			// lose their data as well
 			r.Fail(prop, "isolation", "multifetch-overnulling-after-transport-error", "with MultiFetch enabled, data that does not depend on the failed request was nulled\n%s\nfault-free: %s\nunder faults: %s\nexpected:    %s\n%s", ctxMsg, s0.data, sF.data, canonJSON(mustJSON(refA.Data)), e.describe())
 		} else if !matchAny(f, a, b, c) {
-			r.Fail(prop, "isolation", "", "data under faults is not the fault-free data with exactly the dependent parts null-propagated\n%s\nfault-free: %s\nunder faults: %s\nexpected:    %s\nor:          %s\nfailed positions: %v\nhealthy positions: %v\n%s", ctxMsg, s0.data, sF.data, canonJSON(mustJSON(refA.Data)), canonJSON(mustJSON(refB.Data)), sortedStrings(failPos), sortedStrings(okPos), e.describe())
+			r.Fail(prop, "isolation", sharedKeyShape(op.Query), "data under faults is not the fault-free data with exactly the dependent parts null-propagated\n%s\nfault-free: %s\nunder faults: %s\nexpected:    %s\nor:          %s\nfailed positions: %v\nhealthy positions: %v\n%s", ctxMsg, s0.data, sF.data, canonJSON(mustJSON(refA.Data)), canonJSON(mustJSON(refB.Data)), sortedStrings(failPos), sortedStrings(okPos), e.describe())
 		}
 		if canonValue(a) != canonValue(b) {
 			r.Probe("ambiguous_positions")
@@ -447,7 +447,7 @@ func runFED07(r *core.Run) {
 			_ = json.Unmarshal([]byte(sF.data), &f)
 		}
 		if !isNulling(f, f0) {
-			r.Fail(prop, "isolation", "nulling", "data under faults is not a nulling of the fault-free data\n%s\nfault-free: %s\nunder faults: %s", ctxMsg, s0.data, sF.data)
+			r.Fail(prop, "isolation", "nulling"+sharedKeyShape(op.Query), "data under faults is not a nulling of the fault-free data\n%s\nfault-free: %s\nunder faults: %s", ctxMsg, s0.data, sF.data)
 		}
 	}
 	cancel()
